@@ -98,6 +98,23 @@ def sh_render(args, style):
     single quotes (no ' inside) or double quotes (no \\ $ ` " inside)."""
     out = []
     for a in args:
+        if style == 'bare' and a:
+            # minimal quoting: only the characters sh itself needs quoted are quoted (runs of
+            # them in single quotes, a ' as "'"), everything else - '#' or '~' inside a word,
+            # '=', ':', '%', '{', non-ASCII - stays bare.  No backslashes: bfg9000 documents
+            # that option strings are split without escape processing (doc/about/changes.md).
+            w = ''
+            for m in re.finditer(r"""('+)|([\s"\\$`&|;<>()*?\[\]!]+)|([^\s'"\\$`&|;<>()*?\[\]!]+)""", a):
+                if m.group(1):
+                    w += '"' + m.group(1) + '"'
+                elif m.group(2):
+                    w += "'" + m.group(2) + "'"
+                elif not w and m.group(3)[0] in '#~':
+                    w += "'" + m.group(3)[0] + "'" + m.group(3)[1:]
+                else:
+                    w += m.group(3)
+            out.append(w)
+            continue
         if style == 'single' and "'" not in a:
             out.append("'" + a + "'")
         elif not re.search(r'[\\$`"]', a):
@@ -559,8 +576,8 @@ def judge(backend, slots, script_slots, out, exp, root_hint=None):
 
 # ---------------------------------------------------------------- case runner
 
-def probe_single(backend, ctx, s, script=False):
-    sl = {'id': 1, 'ctx': ctx, 's': s}
+def probe_single(backend, ctx, s, script=False, style='single'):
+    sl = {'id': 1, 'ctx': ctx, 's': s, 'style': style}
     if script:
         out, exp = run_script(backend, [], [sl])
         v = judge(backend, [], [sl], out, exp)
@@ -573,15 +590,15 @@ def probe_single(backend, ctx, s, script=False):
 _probe_cache = {}
 
 
-def _probe_cached(backend, ctx, t, script):
-    key = (backend, ctx, t, script)
+def _probe_cached(backend, ctx, t, script, style='single'):
+    key = (backend, ctx, t, script, style)
     if key not in _probe_cache:
-        v, _ = probe_single(backend, ctx, t, script)
+        v, _ = probe_single(backend, ctx, t, script, style)
         _probe_cache[key] = v is not None
     return _probe_cache[key]
 
 
-def culprits(backend, ctx, s, script=False):
+def culprits(backend, ctx, s, script=False, style='single'):
     """Which single characters (or, failing that, adjacent pairs) of s
     reproduce a failure in this context?"""
     found = []
@@ -600,7 +617,7 @@ def culprits(backend, ctx, s, script=False):
                (label == '@trail' and not s.endswith(ch)) or \
                (label == '@alone' and s != ch):
                 continue
-            if _probe_cached(backend, ctx, t, script):
+            if _probe_cached(backend, ctx, t, script, style):
                 found.append(ch + label)
                 break
     if not found:
@@ -611,7 +628,7 @@ def culprits(backend, ctx, s, script=False):
                 continue
             seen.append(pair)
             t = 'x' + pair + 'x'
-            if admissible(ctx, t) and _probe_cached(backend, ctx, t, script):
+            if admissible(ctx, t) and _probe_cached(backend, ctx, t, script, style):
                 found.append('seq:' + pair)
             if len(seen) >= 10:
                 break
@@ -669,7 +686,7 @@ def run_case(backend, case):
         res.events['slots:held-in-batch'] = res.events.get('slots:held-in-batch', 0)
         return res
     for sl, is_script in suspects:
-        v, o1 = probe_single(backend, sl['ctx'], sl['s'], is_script)
+        v, o1 = probe_single(backend, sl['ctx'], sl['s'], is_script, sl.get('style', 'single'))
         res.ev('slots:isolated-rerun')
         if v is None:
             # held when alone: the batch result was collateral of another slot
@@ -682,7 +699,7 @@ def run_case(backend, case):
             observed = o1.configure_out[-600:]
         elif what == 'not-started':
             observed = {'build': [(t, rc, tail[-500:]) for t, rc, tail in o1.build]}
-        cul = culprits(backend, sl['ctx'], sl['s'], is_script)
+        cul = culprits(backend, sl['ctx'], sl['s'], is_script, sl.get('style', 'single'))
         if cul and cul[0].startswith('seq:'):
             trig = 'seq:' + ','.join(sorted(''.join(charname(ch) for ch in c[4:]) for c in cul))
         elif cul:
@@ -756,7 +773,7 @@ def gen_cases(backend, tier, seed, contexts=CONTEXTS, script_contexts=SCRIPT_CON
             seen.add(s)
             sid += 1
             slots.append({'id': sid, 'ctx': ctx, 's': s,
-                          'style': rng.choice(['single', 'double'])})
+                          'style': rng.choice(['single', 'double', 'bare'])})
     rng.shuffle(slots)
     per = 120
     for i in range(0, len(slots), per):
@@ -776,7 +793,7 @@ def gen_cases(backend, tier, seed, contexts=CONTEXTS, script_contexts=SCRIPT_CON
             seen.add(s)
             sid += 1
             sslots.append({'id': sid, 'ctx': ctx, 's': s,
-                           'style': rng.choice(['single', 'double'])})
+                           'style': rng.choice(['single', 'double', 'bare'])})
     rng.shuffle(sslots)
     # at most one slot of each context per script (they share variables)
     pending = list(sslots)
